@@ -30,6 +30,9 @@ def alphabet(m):
         for a, qs in (('A', (3, -3, 5, -8)), ('Bq', (5, -8))):
             for q in qs:
                 evs.append(('submit', p, a, q))
+    # an order carrying an id the user chose and reuses (the same order sent twice, a scale-in under one label):
+    # two fills with one id, asset, side and timestamp are still two cash movements
+    evs += [('submit_labelled', '1', 'A', 3), ('submit_labelled', '2', 'A', 3)]
     ticks = {m.clock}
     if m.clock + 1 < len(bm.INSTANTS):
         ticks.add(m.clock + 1)
